@@ -9,7 +9,7 @@ def _rerun_before_report(run):
         reproduced = 0
         for item in items:
             case, answer, sname, idx, sd = item
-            if sname not in ("batch", "net", "comp") or " => " not in case or reproduced >= 3:
+            if sname not in ("batch", "net", "comp", "shut") or " => " not in case or reproduced >= 3:
                 # (once three cases have failed again the rest is reported as is)
                 keep.append(item)
                 continue
@@ -30,7 +30,7 @@ def _rerun_before_report(run):
     run.propfails = retry(run.propfails)
     run.diffs = retry(run.diffs)
     for i, (n, ok, d) in enumerate(run.obligations):
-        if not ok and n in ("correspondence:batch", "correspondence:net", "correspondence:comp"):
+        if not ok and n in ("correspondence:batch", "correspondence:net", "correspondence:comp", "correspondence:shut"):
             sname = n.split(":")[1]
             if not [x for x in run.diffs + run.badcases if x[2] == sname]:
                 run.obligations[i] = (n, True, "differences not reproduced on re-run (counted inconclusive)")
@@ -44,6 +44,7 @@ CHECK = {
         suite("comp", "c02", 60, 600, stdin=True, args=["-suite", "comp"], timeout={"quick": 300, "thorough": 1200}),
         suite("val", "c02", 3000, 60000, stdin=True, args=["-suite", "val"], timeout={"quick": 300, "thorough": 900}),
         suite("hook", "c02", 400, 8000, stdin=True, args=["-suite", "hook"], timeout={"quick": 300, "thorough": 900}),
+        suite("shut", "c02", 10, 200, stdin=True, args=["-suite", "shut"], timeout={"quick": 300, "thorough": 900}),
         suite("cfg", "c02", 300, 3000, stdin=True, args=["-suite", "cfg"], timeout={"quick": 300, "thorough": 900}),
     ],
     "gen": [{"pkg": "extract_c02", "out": "lean/ClusterVerif/Gen/C02.lean"}],
